@@ -792,7 +792,8 @@ func (c *Compiler) writeNode(node, parent *node, recv, v, vsrc string, depth int
 		}
 		switch mode {
 		case modeLoop:
-			// Loop magic.
+			// Loop magic: iterate the map only when the path ends here ...
+			c.wl("if len(path) == ", depths, " {")
 			c.wl("for k := range ", c.fmtV(node, v), " {")
 			c.wl("if l.RequireKey() {")
 			switch node.mapk.typn {
@@ -828,6 +829,10 @@ func (c *Compiler) writeNode(node, parent *node, recv, v, vsrc string, depth int
 			c.wl("if ctl == inspector.LoopCtlCnt { continue }")
 			c.wl("}")
 			c.wl("return")
+			c.wl("}")
+			// ... otherwise follow the path into the entry like the other modes do.
+			c.wl("if len(path) > ", depths, " {")
+			fallthrough
 		default:
 			nv := "x" + strconv.Itoa(depth)
 			if mode == modeSet && node.ptr {
@@ -893,6 +898,9 @@ func (c *Compiler) writeNode(node, parent *node, recv, v, vsrc string, depth int
 					return err
 				}
 			}
+			if mode == modeLoop {
+				c.wl("}")
+			}
 		}
 		node.ptr = origPtr
 	case typeSlice:
@@ -918,7 +926,8 @@ func (c *Compiler) writeNode(node, parent *node, recv, v, vsrc string, depth int
 		}
 		switch mode {
 		case modeLoop:
-			// Loop magic.
+			// Loop magic: iterate the slice only when the path ends here ...
+			c.wl("if len(path) == ", depths, " {")
 			c.wl("for k := range ", c.fmtVd(node, v, depth), " {")
 			c.wl("if l.RequireKey() {")
 			c.wl("*buf = strconv.AppendInt((*buf)[:0], int64(k), 10)")
@@ -939,6 +948,10 @@ func (c *Compiler) writeNode(node, parent *node, recv, v, vsrc string, depth int
 			c.wl("if ctl == inspector.LoopCtlCnt { continue }")
 			c.wl("}")
 			c.wl("return")
+			c.wl("}")
+			// ... otherwise follow the path into the element like the other modes do.
+			c.wl("if len(path) > ", depths, " {")
+			fallthrough
 		default:
 			// Convert path value to the int index and try to find value in the slice using it.
 			nv := "x" + strconv.Itoa(depth)
@@ -969,6 +982,9 @@ func (c *Compiler) writeNode(node, parent *node, recv, v, vsrc string, depth int
 				c.wl("return nil")
 			}
 			c.wl("}")
+			if mode == modeLoop {
+				c.wl("}")
+			}
 		}
 	case typeBasic:
 		switch mode {
